@@ -44,20 +44,10 @@ def _nested(outer, name, closure=None):
 
 
 # ---- a: typed cells ----------------------------------------------------------------------
-@ob(
-    "C12",
-    "a.typed-cells.number",
-    timeout=200,
-    kernel=K[:2],
-    shims=(),
-    symbolic="integer n (|n| <= 10^15) read as an int cell; boolean cell",
-    bounds="integral *floats* are not symbolic here: CrossHair models floats as reals and str(float) is C code (outside the claim, see OUTSIDE); three concrete integral floats are pushed through both converters as a sanity check only",
-    weight=20,
-)
 def c12_numbers(n: int, b: bool) -> bool:
     """
-    pre: -1000000000000000 <= n <= 1000000000000000
-    post: _ == True
+    vpre: -1000000000000000 <= n <= 1000000000000000
+    vpost: _ == True
     """
     want = str(n)
     if B.xlsx_value_to_str(n) != want:
@@ -67,6 +57,20 @@ def c12_numbers(n: int, b: bool) -> bool:
             return False
     wb = "TRUE" if b else "FALSE"
     return B.xlsx_value_to_str(b) == wb and B.xls_value_to_unicode(1 if b else 0, XL_CELL_BOOLEAN, 0) == wb
+
+
+specialise(
+    "C12",
+    "a.typed-cells.number",
+    c12_numbers,
+    {"b": [False, True]},
+    timeout=200,
+    kernel=K[:2],
+    shims=(),
+    symbolic="integer n (|n| <= 10^15) read as an int cell",
+    bounds="boolean cell value fixed per instance; integral *floats* are not symbolic here: CrossHair models floats as reals and str(float) is C code (outside the claim); three concrete integral floats are pushed through both converters as a sanity check only",
+    weight=20,
+)
 
 
 class Cell:
